@@ -171,6 +171,9 @@ pub fn run(ctx: &mut Ctx) {
         if primitives(ctx, case, &mut rng, &mut st, &mut map, &uni, &other, &set_a, file).is_err() {
             continue;
         }
+        if case % 3 == 0 && edge_ids(ctx, case, &mut rng, &scratch).is_err() {
+            continue;
+        }
 
         // ---- whole sessions: memory redb, file redb, ordered map
         let (ca, cb) = (cfg(&mut rng), cfg(&mut rng));
@@ -242,14 +245,20 @@ pub fn run(ctx: &mut Ctx) {
 
 #[allow(clippy::too_many_arguments)]
 fn primitives(ctx: &mut Ctx, case: u64, rng: &mut Rng, st: &mut Store, map: &mut MapStore, uni: &Universe, other: &Universe, set: &[SignedEntry], file: bool) -> Result<(), ()> {
-    let ns = uni.ns.id();
+    let authors: Vec<iroh_docs::AuthorId> = uni.authors.iter().map(|a| a.id()).collect();
+    let foreign = vec![(other.ns.id(), other.authors[0].id())];
+    primitives_on(ctx, case, rng, st, map, uni.ns.id(), &authors, &foreign, uni.t0, set, file, "")
+}
+
+#[allow(clippy::too_many_arguments)]
+fn primitives_on(ctx: &mut Ctx, case: u64, rng: &mut Rng, st: &mut Store, map: &mut MapStore, ns: NamespaceId, authors: &[iroh_docs::AuthorId], foreign: &[(NamespaceId, iroh_docs::AuthorId)], t0: u64, set: &[SignedEntry], file: bool, tag: &str) -> Result<(), ()> {
     let state = shorts(set);
     // first key
     let got = verif::si_get_first(st, ns).map_err(|_| ())?;
     let want = map.first().unwrap_or_default();
     ctx.count("first_key_checks", 1);
     if got != want {
-        ctx.violation(case, "first-key-differs", json!({"state": state, "got": hex::encode(got.as_bytes()), "expected": hex::encode(want.as_bytes())}));
+        ctx.violation(case, &format!("first-key-differs{tag}"), json!({"state": state, "got": hex::encode(got.as_bytes()), "expected": hex::encode(want.as_bytes())}));
         return Err(());
     }
     // candidate bounds
@@ -267,15 +276,18 @@ fn primitives(ctx: &mut Ctx, case: u64, rng: &mut Rng, st: &mut Store, map: &mut
             bounds.push(RecordIdentifier::new(NamespaceId::from(n), iroh_docs::AuthorId::from(a), &k[..k.len() - 1]));
         }
     }
-    for a in &uni.authors {
-        bounds.push(RecordIdentifier::new(ns, a.id(), b""));
-        bounds.push(RecordIdentifier::new(ns, a.id(), [0xFF, 0xFF, 0xFF, 0xFF, 0xFF]));
+    for a in authors {
+        bounds.push(RecordIdentifier::new(ns, *a, b""));
+        bounds.push(RecordIdentifier::new(ns, *a, [0xFF]));
+        bounds.push(RecordIdentifier::new(ns, *a, [0xFF, 0xFF, 0xFF, 0xFF, 0xFF]));
     }
     bounds.push(RecordIdentifier::new(ns, iroh_docs::AuthorId::from(&[0u8; 32]), b""));
     bounds.push(RecordIdentifier::new(ns, iroh_docs::AuthorId::from(&[0xFF; 32]), [0xFF]));
     // bounds in the neighbouring document and outside any document
-    bounds.push(RecordIdentifier::new(other.ns.id(), other.authors[0].id(), b""));
-    bounds.push(RecordIdentifier::new(other.ns.id(), iroh_docs::AuthorId::from(&[0xFF; 32]), [0xFF]));
+    for (fns, fa) in foreign {
+        bounds.push(RecordIdentifier::new(*fns, *fa, b""));
+        bounds.push(RecordIdentifier::new(*fns, iroh_docs::AuthorId::from(&[0xFF; 32]), [0xFF]));
+    }
     bounds.push(RecordIdentifier::new(NamespaceId::from(&[0u8; 32]), iroh_docs::AuthorId::from(&[0u8; 32]), b""));
     bounds.push(RecordIdentifier::new(NamespaceId::from(&[0xFF; 32]), iroh_docs::AuthorId::from(&[0xFF; 32]), [0xFF]));
     let n_ranges = if ctx.is_quick() { 60 } else { 200 };
@@ -300,11 +312,11 @@ fn primitives(ctx: &mut Ctx, case: u64, rng: &mut Rng, st: &mut Store, map: &mut
         if got != want {
             let leaked = got.iter().any(|e| e.namespace() != ns);
             let sig = if leaked {
-                format!("range-scan-returns-entries-of-another-document[{kind}]")
+                format!("range-scan-returns-entries-of-another-document[{kind}]{tag}")
             } else if foreign {
-                format!("range-scan-differs[{kind},foreign-bound]")
+                format!("range-scan-differs[{kind},foreign-bound]{tag}")
             } else {
-                format!("range-scan-differs[{kind}]")
+                format!("range-scan-differs[{kind}]{tag}")
             };
             ctx.violation(case, &sig, json!({"state": state, "file": file, "x": hex::encode(&x.as_bytes()[28..]), "y": hex::encode(&y.as_bytes()[28..]),
                 "got": shorts(&got), "expected": shorts(&want)}));
@@ -352,19 +364,91 @@ fn primitives(ctx: &mut Ctx, case: u64, rng: &mut Rng, st: &mut Store, map: &mut
         if id.namespace() != ns {
             continue;
         }
-        let threshold = uni.t0 + rng.below(9) as u64;
+        let threshold = t0 + rng.below(9) as u64;
         ctx.count("prefix_removals", 1);
         let got = verif::si_remove_prefix_filtered(st, ns, &id, |r| r.timestamp() <= threshold).map_err(|_| ())?;
         let want = map.remove_prefix_filtered(&id, &|r: &Record| r.timestamp() <= threshold);
         let after = scan(st, ns);
         let want_after: Vec<SignedEntry> = map.map.values().cloned().collect();
         if got != want || after != want_after {
-            let sig = if id.key().last() == Some(&0xFF) { "prefix-removal-differs[prefix..ff]" } else { "prefix-removal-differs" };
-            ctx.violation(case, sig, json!({"state": state, "prefix": hex::encode(id.key()), "removed": got, "expected_removed": want,
+            let sig = if id.key().last() == Some(&0xFF) { format!("prefix-removal-differs[prefix..ff]{tag}") } else { format!("prefix-removal-differs{tag}") };
+            ctx.violation(case, &sig, json!({"state": state, "prefix": hex::encode(id.key()), "removed": got, "expected_removed": want,
                 "after": shorts(&after), "expected_after": shorts(&want_after)}));
             return Err(());
         }
         // neighbouring document untouched
+    }
+    Ok(())
+}
+
+/// Storage primitives over identifiers at the carry boundary: a namespace / author id ending in
+/// 0xFF (one or two bytes) next to a neighbour whose id is the carried successor plus a little.
+/// Such ids cannot be signed for, so entries are placed below the validation layer (hook H3) —
+/// which is where the table bounds are computed.
+fn edge_ids(ctx: &mut Ctx, case: u64, rng: &mut Rng, scratch: &Scratch) -> Result<(), ()> {
+    use crate::wire::RawEntry;
+    let t0 = crate::gen::t0();
+    let mk_pair = |rng: &mut Rng| -> ([u8; 32], [u8; 32]) {
+        let mut a = rng.fill32();
+        let ffs = rng.range(1, 3);
+        for i in 0..ffs {
+            a[31 - i] = 0xFF;
+        }
+        if a[31 - ffs] == 0xFF {
+            a[31 - ffs] = 0x05;
+        }
+        let mut b = a;
+        b[31 - ffs] += 1;
+        for i in 0..ffs {
+            b[31 - i] = rng.next_u64() as u8;
+        }
+        (a, b)
+    };
+    let (ns_a, ns_b) = mk_pair(rng);
+    let (au_a, au_b) = mk_pair(rng);
+    let au_c = rng.fill32();
+    let authors = [au_a, au_b, au_c];
+    let file = rng.chance(1, 6);
+    let (mut st, _) = new_store(if file { Backend::File } else { Backend::Memory }, scratch);
+    let mut maps = [MapStore::default(), MapStore::default()];
+    let mut sets: [Vec<SignedEntry>; 2] = [vec![], vec![]];
+    for (d, ns) in [ns_a, ns_b].iter().enumerate() {
+        st.import_namespace(iroh_docs::Capability::Read(NamespaceId::from(ns))).map_err(|_| ())?;
+        let mut keys: Vec<Vec<u8>> = vec![];
+        for _ in 0..rng.range(2, 12) {
+            let k = crate::gen::key(rng, &keys, 3);
+            keys.push(k.clone());
+            let a = *rng.pick(&authors);
+            let (h, l) = crate::gen::content(rng.below(4));
+            let mut id = ns.to_vec();
+            id.extend_from_slice(&a);
+            id.extend_from_slice(&k);
+            let raw = RawEntry { author_sig: [1; 64], namespace_sig: [2; 64], id, len: l, hash: *h.as_bytes(), ts: t0 + rng.below(8) as u64 };
+            let Ok(e) = raw.into_entry() else { continue };
+            if maps[d].map.contains_key(&idb(e.id())) {
+                continue;
+            }
+            verif::si_entry_put(&mut st, NamespaceId::from(ns), e.clone()).map_err(|_| ())?;
+            maps[d].entry_put(e.clone());
+            sets[d].push(e);
+        }
+    }
+    ctx.count("edge_id_states", 1);
+    let aids: Vec<iroh_docs::AuthorId> = authors.iter().map(iroh_docs::AuthorId::from).collect();
+    let foreign = vec![(NamespaceId::from(&ns_b), aids[1])];
+    let before_b = scan(&mut st, NamespaceId::from(&ns_b));
+    let want_b: Vec<SignedEntry> = maps[1].map.values().cloned().collect();
+    if before_b != want_b {
+        ctx.violation(case, "scan-of-neighbouring-document-differs[carry-boundary-ids]", json!({"ns_a": hex::encode(&ns_a[28..]), "ns_b": hex::encode(&ns_b[28..]), "got": shorts(&before_b), "expected": shorts(&want_b)}));
+        return Err(());
+    }
+    let (m0, _m1) = maps.split_at_mut(1);
+    primitives_on(ctx, case, rng, &mut st, &mut m0[0], NamespaceId::from(&ns_a), &aids, &foreign, t0, &sets[0], file, "[carry-boundary-ids]")?;
+    // whatever was removed in document A, document B is untouched
+    let after_b = scan(&mut st, NamespaceId::from(&ns_b));
+    if after_b != want_b {
+        ctx.violation(case, "prefix-removal-reached-the-neighbouring-document[carry-boundary-ids]", json!({"ns_a": hex::encode(&ns_a[28..]), "ns_b": hex::encode(&ns_b[28..])}));
+        return Err(());
     }
     Ok(())
 }
